@@ -123,6 +123,7 @@ fn replay<C: Config>(cases: &str, out: &str, shard: (usize, usize), nvecs: usize
     writeln!(w, "{}", json!({"id": 0, "cfg": cfg_json::<C>(profile), "init": init, "kids": roots, "nvecs": nvecs})).unwrap();
     let mut postsig = vec![0u64; nn];
     let mut nondet = 0u64;
+    let mut nondet_at: Vec<(i64, i64)> = vec![];
     for k in 0..nn {
         if !member[k] { continue; }
         let n = &nodes[k];
@@ -141,7 +142,7 @@ fn replay<C: Config>(cases: &str, out: &str, shard: (usize, usize), nvecs: usize
             // action was the judged one
             let obs = world.observe().to_string();
             let sig = fnv(&obs);
-            if sig != postsig[pk] { nondet += 1; if nondet <= 2 { eprintln!("NONDET at node {} prefix {}: {}", n.id, nodes[pk].id, obs); } }
+            if sig != postsig[pk] { nondet += 1; nondet_at.push((nodes[pk].id, n.id)); }
         }
         world.notes.clear();
         let (o, cbs, ovf) = world.step(&n.act);
@@ -164,6 +165,7 @@ fn replay<C: Config>(cases: &str, out: &str, shard: (usize, usize), nvecs: usize
         writeln!(w, "{}", ev).unwrap();
     }
     w.flush().unwrap();
+    for (a, b) in nondet_at.iter().take(200) { writeln!(marks, "NONDET {} {}", a, b).unwrap(); }
     writeln!(marks, "DONE {} {}", p - 1, nondet).unwrap();
     marks.flush().unwrap();
 }
